@@ -8,6 +8,7 @@ import json
 
 from harness import core
 from harness.gen import values as V
+from harness.impl import cpp_full
 from harness.model import client
 from harness.checks.cppcorpus import CppCorpus
 from harness.checks.pycodec import encode_impl, malformed_stream, mirror_ok
@@ -27,9 +28,27 @@ def d4(trait_of):
     return classify
 
 
+# hand-made batches for directed cases (cppcorpus.CppCorpus(extra=...)): elements of a large fixed wire size, the enum
+# sanitizer switched on (the generic streams run without it: see D61), buffers that do not start on an aligned address
+DIRECTED_BIG = ('struct BigItem { u64 s[2048]; };\nstruct BigItems { BigItem items<>; };\nstruct BigWords { u16 n; u64 w<@n>; };\n', 'dbig', None)
+DIRECTED_ENUM = ('enum DE { DE_A = 0, DE_B = 1 };\nunion DU { 0: u8 a; 1: u32 b; };\nstruct DM { DE e; u32 z; };\n', 'denum',
+                 [f for f in cpp_full.SAN_FLAGS if f != '-fno-sanitize=enum'])
+DIRECTED_ALIGN = ('struct DA { u8 n; u8 x<@n>; u32 y; };\nstruct DB { bytes a<>; u32 b; };\nstruct DC { u16 a; u64 b; };\n', 'dalign', None)
+
+
+def classify_directed(case, detail):
+    """D61: a corrupted enum / discriminator value is loaded into a C++ enum that cannot represent it (UBSan -fsanitize=enum);
+    D62: the codec pads by rounding absolute addresses: buffers that do not start on an aligned address"""
+    if case.get('directed') == 'denum' and 'not a valid value for type' in str(detail.get('fault')):
+        return 'D61'
+    if case.get('directed') == 'dalign' and (case.get('off') or case.get('eoff')):
+        return 'D62'
+    return None
+
+
 def gen_cases(chk, corpus, per_type, max_len=4):
     cases = []
-    for c in corpus.types:
+    for c in corpus.plain_types:
         vals = [V.default_value(c.tree)] + [V.gen_value(chk.rng, c.tree, max_len=max_len) for _ in range(per_type)]
         for v in vals:
             cases.append((c, v))
@@ -166,7 +185,7 @@ def run_c05(tier):
                 'real generated code under ASan/UBSan: get_byte_size(), return of encode(void*) into a sentinel-filled over-allocation, '
                 'size of encode() vectors, encoded_byte_size; non-trivial = object with a non-empty array or a grown vector.')
     chk.lean = core.lean_obligations('C05', thorough=(tier == 'thorough'))
-    corpus = CppCorpus(chk, chk.scale(5, 40))
+    corpus = CppCorpus(chk, chk.scale(5, 40), extra=[DIRECTED_ALIGN])
     try:
         corpus.report_build_errors()
         tr = traits(corpus)
@@ -236,6 +255,24 @@ def run_c05(tier):
                    'ptr_bytes_zero': mpz[:k], 'rest_zero': rest_zero}
             if want != got:
                 chk.correspondence_mismatch('Cpp.encodePtr/encodeVec/getByteSize = generated encode/get_byte_size', casej, want, got)
+        # destinations of encode(void*) at every offset from an aligned address (known finding D62 unless the offset is a multiple of 8)
+        le = lambda n, k=4: n.to_bytes(k, 'little')   # noqa: E731
+        by_name = {c.name: c for c in corpus.types if c.directed}
+        dcases = [(name, data, eoff) for name, data in (('DA', bytes.fromhex('03010203') + le(42)), ('DA', bytes.fromhex('00000000') + le(42)),
+                                                        ('DB', le(1) + bytes.fromhex('07000000') + le(42)), ('DC', bytes.fromhex('0100000000000000') + le(7, 8)))
+                  for eoff in range(8)]
+        out = corpus.run([(by_name[n], {'op': 'decode', 'e': 'little', 'data': d.hex(), 'eoff': eoff}) for n, d, eoff in dcases])
+        for (n, d, eoff), o in zip(dcases, out):
+            casej = {'schema': by_name[n].text, 'type': n, 'object decoded from': d.hex(), 'directed': 'dalign', 'eoff': eoff}
+            chk.count((n, d.hex(), eoff), True)
+            chk.bump('directed:encode-destination-offset')
+            if o.get('fault'):
+                chk.property_violation(casej, {'what': 'generated code faulted', 'fault': o['fault']}, classify_directed)
+            elif not o.get('ok'):
+                chk.property_violation(casej, {'what': 'canonical bytes in an aligned buffer were rejected'})
+            elif o.get('overrun') or o['ptr_written'] != o['size']:
+                chk.property_violation(casej, {'what': 'get_byte_size() = %d, encode(void*) returned %d%s' % (
+                    o['size'], o['ptr_written'], ' and wrote outside the buffer' if o.get('overrun') else '')}, classify_directed)
     finally:
         corpus.close()
     return chk.finish()
@@ -298,14 +335,14 @@ def run_c07(tier):
                 'in an exact-size heap block under ASan/UBSan with an allocation-recording operator new; a case = (type, bytes, byte order); '
                 'non-trivial = not the untouched valid encoding. Observed: sanitizer fault, C++ exception, returned bool, re-encoded length, bytes requested.')
     chk.lean = core.lean_obligations('C07', thorough=(tier == 'thorough'))
-    corpus = CppCorpus(chk, chk.scale(5, 40))
+    corpus = CppCorpus(chk, chk.scale(5, 40), extra=[DIRECTED_BIG, DIRECTED_ENUM, DIRECTED_ALIGN])
     try:
         corpus.report_build_errors()
         tr = traits(corpus)
         reqs = corpus.deft_requests()
         nd = len(reqs)
         seeds = []
-        for c in corpus.types:
+        for c in corpus.plain_types:
             for _ in range(chk.scale(2, 4)):
                 v = V.gen_value(chk.rng, c.tree, max_len=3)
                 e = chk.rng.choice(['<', '>'])
@@ -363,9 +400,53 @@ def run_c07(tier):
             elif impl_outcome != m['outcome']:
                 chk.correspondence_mismatch('Cpp.decode outcome = generated decode (malformed stream)', casej, impl_outcome, m)
         chk.extra['worst_alloc_bytes_per_input_byte'] = round(worst, 1)
+        directed_c07(chk, corpus)
     finally:
         corpus.close()
     return chk.finish()
+
+
+def directed_c07(chk, corpus):
+    by_name = {c.name: c for c in corpus.types if c.directed}
+    le = lambda n, k=4: n.to_bytes(k, 'little')   # noqa: E731
+    inputs = [
+        # a counter the remaining bytes cannot satisfy at the element's wire size must be refused before resizing (fixed by e9b58a7)
+        ('BigItems', '<', le(1000) + bytes(4) + bytes(1024), 0, 'rejected'),
+        ('BigItems', '<', le(1) + bytes(4) + bytes(16384), 0, 'accepted'),
+        ('BigItems', '<', le(2) + bytes(4) + bytes(16384), 0, 'rejected'),
+        ('BigWords', '<', le(4000, 2) + bytes(6) + bytes(8 * 3999), 0, 'rejected'),
+        ('BigWords', '<', le(3, 2) + bytes(6) + bytes(24), 0, 'accepted'),
+        # corrupted enum and discriminator values under -fsanitize=enum (known finding D61)
+        ('DU', '<', bytes.fromhex('ffffffff05000000'), 0, 'rejected'),
+        ('DU', '<', bytes.fromhex('0100000005000000'), 0, 'accepted'),
+        ('DM', '<', bytes.fromhex('0700000005000000'), 0, 'accepted'),
+        ('DM', '<', bytes.fromhex('0100000005000000'), 0, 'accepted'),
+    ]
+    # canonical messages in buffers at every offset from an aligned address (known finding D62 for the offsets that are not multiples of 8)
+    for name, data in (('DA', bytes.fromhex('03010203') + le(42)), ('DB', le(1) + bytes.fromhex('07000000') + le(42)), ('DC', bytes.fromhex('0100000000000000') + le(7, 8))):
+        for off in range(8):
+            inputs.append((name, '<', data, off, 'accepted'))
+    out = corpus.run([(by_name[n], {'op': 'decode', 'e': E_NAME[e], 'data': d.hex(), 'off': off}) for n, e, d, off, _ in inputs])
+    for (n, e, d, off, want), o in zip(inputs, out):
+        c = by_name[n]
+        casej = {'schema': c.text, 'type': n, 'data': d.hex() if len(d) < 64 else '%s... (%d bytes)' % (d[:16].hex(), len(d)), 'endianness': e,
+                 'directed': c.directed, 'off': off}
+        chk.count((n, d.hex(), e, off), True)
+        chk.bump('directed:%s' % c.directed)
+        got = 'fault' if o.get('fault') else 'exception' if o.get('exception') else 'accepted' if o.get('ok') else 'rejected'
+        alloc = o.get('alloc_total', 0)
+        if got == 'fault':
+            chk.property_violation(casej, {'what': 'decode read outside the buffer / undefined behaviour', 'fault': o['fault']}, classify_directed)
+        elif got == 'exception':
+            chk.property_violation(casej, {'what': 'decode threw %s instead of returning a boolean' % o['exception']}, classify_directed)
+        elif alloc > 4096 + 1024 * len(d):
+            chk.property_violation(casej, {'what': 'decode requested %d bytes of memory for %d bytes of input' % (alloc, len(d))}, classify_directed)
+        elif got != want:
+            chk.property_violation(casej, {'what': 'decode %s a byte string that is %s a canonical encoding' % (got, 'not' if want == 'rejected' else '')},
+                                   classify_directed)
+        elif got == 'accepted' and len(o.get('enc_native', '')) // 2 != len(d):
+            chk.property_violation(casej, {'what': 'accepted input of %d bytes re-encodes to %d bytes' % (len(d), len(o.get('enc_native', '')) // 2)},
+                                   classify_directed)
 
 
 def single_quote_repr(v):
